@@ -373,8 +373,6 @@ m("spaces-trimleft", ["C16", "C13"], "keep", "lexer.go",
 m("selector-peek-star", ["C16", "C08"], "break", "parser.go",
   "			lexer := p.Lexer.Clone()\n			p.nextToken()\n			if p.Token.Kind == \"*\" { // expr.* case\n				p.Lexer = lexer\n				return expr\n			}\n",
   "			if p.Lexer.peekIs(0, '*') { // expr.* case\n				return expr\n			}\n			p.nextToken()\n", "the byte behind '.' decides, not the next token")
-m("tryparse-cluster-no-restore", ["C08"], "break", "parser.go",
-  "	if !p.Token.IsKeywordLike(\"INTERLEAVE\") {\n		p.Lexer = lexer\n		return nil\n	}", "	if !p.Token.IsKeywordLike(\"INTERLEAVE\") {\n		return nil\n	}", "the attempt answers no with the comma consumed")
 
 def sh(cmd, cwd=None):
     return subprocess.run(cmd, shell=True, cwd=cwd, capture_output=True, text=True)
